@@ -500,6 +500,14 @@ fn errs_before(hist: &[Op]) -> bool {
 pub fn main(args: &Args) {
     if let Some(p) = &args.replay {
         let case = crate::load_case(p);
+        if case["engine"] == "several" {
+            let mut t = Tally::default();
+            several_accumulators(&mut t);
+            for v in &t.violations {
+                println!("replay: {}", v.what);
+            }
+            std::process::exit(if t.violations.is_empty() { 0 } else { 1 });
+        }
         let hist: Vec<Op> = serde_json::from_value(case["hist"].clone()).unwrap();
         let term: Option<Term> = serde_json::from_value(case["term"].clone()).unwrap();
         let terms: Vec<Term> = term.map(|t| vec![t]).unwrap_or_else(|| TERMS.to_vec());
@@ -590,6 +598,13 @@ pub fn main(args: &Args) {
         rep.set("long_histories", json!(tl.states));
         rep.absorb(tl);
     }
+    // two and three accumulators alive at once, every interleaving of their lives
+    {
+        let mut tl = Tally::default();
+        several_accumulators(&mut tl);
+        rep.set("several_accumulators_interleavings", json!(tl.states));
+        rep.absorb(tl);
+    }
     // drop-during-unwind in a child process (a wrong implementation aborts the process)
     let child_depth = args.tier.pick(4usize, 5);
     unwind_sweep(&mut rep, child_depth);
@@ -597,7 +612,7 @@ pub fn main(args: &Args) {
     nodebug_drop_sweep(&mut rep, args.tier.pick(3usize, 4));
 
     rep.rule = format!(
-        "every history over {} accumulator operations up to length {} (stateright BFS, one state per history), each followed by every terminal operation (finish, finish_with, into_inner, drop, inspect) on a fresh replay of the real Accumulator, compared with a Vec reference; every 1- and 2-operation cycle repeated to lengths 8..130; drop-during-unwind, and every finishing operation executed from a destructor during an unrelated unwind, for every history up to length {} in a child process; non-trivial = history that records at least one error",
+        "every history over {} accumulator operations up to length {} (stateright BFS, one state per history), each followed by every terminal operation (finish, finish_with, into_inner, drop, inspect) on a fresh replay of the real Accumulator, compared with a Vec reference; every 1- and 2-operation cycle repeated to lengths 8..130; drop-during-unwind, and every finishing operation executed from a destructor during an unrelated unwind, for every history up to length {} in a child process; every interleaving of the lives (create, 0..2 pushes, then drop / finish / into_inner) of two accumulators, and of three with the third short, on one thread: each answers for its own record alone; non-trivial = history that records at least one error",
         OPS.len(), depth.max(deep), child_depth
     );
     rep.assumptions = vec!["Error Display text distinguishes the recorded errors (ids are embedded in the messages)".into(), "panic=unwind build".into()];
@@ -605,6 +620,120 @@ pub fn main(args: &Args) {
     rep.require(rep.tally.outcome_classes.len() >= 6, "fewer than 6 distinct outcome classes");
     rep.require(rep.tally.states as usize >= 1000, "state space suspiciously small");
     rep.finish()
+}
+
+// ------------------------------------------------------------------ several accumulators alive at once
+
+/// One accumulator's life: created, `pushes` errors pushed, then ended.
+#[derive(Clone, Copy, Debug, PartialEq)]
+enum End {
+    Drop,
+    Finish,
+    IntoInner,
+}
+
+/// Every interleaving of the lives of two (and, structurally, three) accumulators on one thread:
+/// each one answers for what was recorded into it alone - in particular an unfinished one panics
+/// when dropped whatever happened to the others before (another one's panic having been caught,
+/// another one still alive, another one created since).
+fn several_accumulators(t: &mut Tally) {
+    let scripts: Vec<(usize, End)> = (0..3usize).flat_map(|k| [End::Drop, End::Finish, End::IntoInner].into_iter().map(move |e| (k, e))).collect();
+    // a life has k + 2 steps: create, k pushes, end
+    let run = |lives: &[(usize, End)], order: &[usize], t: &mut Tally| {
+        let label = format!("lives {lives:?} interleaved as {order:?}");
+        let mut accs: Vec<Option<Accumulator>> = lives.iter().map(|_| None).collect();
+        let mut pos: Vec<usize> = vec![0; lives.len()];
+        let mut complaints: Vec<String> = vec![];
+        for &who in order {
+            let (k, end) = lives[who];
+            let step = pos[who];
+            pos[who] += 1;
+            if step == 0 {
+                accs[who] = Some(if who % 2 == 0 { Error::accumulator() } else { Accumulator::default() });
+            } else if step <= k {
+                accs[who].as_mut().unwrap().push(leaf((who * 10 + step) as u32));
+            } else {
+                let acc = accs[who].take().unwrap();
+                match end {
+                    End::Drop => match catch(std::panic::AssertUnwindSafe(move || drop(acc))) {
+                        Ok(()) => complaints.push(format!("accumulator {who} ({k} errors) was dropped unfinished without a panic")),
+                        Err(msg) => {
+                            let ok = msg.contains("dropped without being finished") && if k > 0 { msg.contains(&format!("{k} errors were lost")) } else { !msg.contains("were lost") };
+                            if !ok {
+                                complaints.push(format!("accumulator {who} ({k} errors): drop message `{msg}`"));
+                            }
+                        }
+                    },
+                    End::Finish => match catch(std::panic::AssertUnwindSafe(move || acc.finish())) {
+                        Ok(Ok(())) if k == 0 => {}
+                        Ok(Err(e)) if k > 0 && e.len() == k => {}
+                        Ok(r) => complaints.push(format!("accumulator {who} ({k} errors): finish() = {:?}", r.map_err(|e| e.to_string()))),
+                        Err(p) => complaints.push(format!("accumulator {who}: finish() panicked: {p}")),
+                    },
+                    End::IntoInner => match catch(std::panic::AssertUnwindSafe(move || acc.into_inner())) {
+                        Ok(v) if v.len() == k => {}
+                        Ok(v) => complaints.push(format!("accumulator {who} ({k} errors): into_inner() has {} entries", v.len())),
+                        Err(p) => complaints.push(format!("accumulator {who}: into_inner() panicked: {p}")),
+                    },
+                }
+            }
+        }
+        for a in accs.into_iter().flatten() {
+            let _ = a.into_inner();
+        }
+        t.evaluations += 1;
+        t.states += 1;
+        t.transitions += order.len() as u64;
+        t.traces += 1;
+        if lives.iter().any(|l| l.0 > 0) {
+            t.nontrivial += 1;
+        }
+        t.hit("several_accumulators");
+        for c in complaints {
+            t.violate(Violation { key: format!("C05 several {label} :: {c}"), what: format!("{label}: {c}"), case: json!({"engine": "several"}), detail: json!({}) });
+        }
+    };
+    // all interleavings of two lives
+    fn interleavings(lens: &[usize]) -> Vec<Vec<usize>> {
+        fn go(rem: &mut Vec<usize>, cur: &mut Vec<usize>, out: &mut Vec<Vec<usize>>) {
+            if rem.iter().all(|r| *r == 0) {
+                out.push(cur.clone());
+                return;
+            }
+            for i in 0..rem.len() {
+                if rem[i] > 0 {
+                    rem[i] -= 1;
+                    cur.push(i);
+                    go(rem, cur, out);
+                    cur.pop();
+                    rem[i] += 1;
+                }
+            }
+        }
+        let mut out = vec![];
+        go(&mut lens.to_vec(), &mut vec![], &mut out);
+        out
+    }
+    for a in &scripts {
+        for b in &scripts {
+            for order in interleavings(&[a.0 + 2, b.0 + 2]) {
+                run(&[*a, *b], &order, t);
+            }
+        }
+    }
+    // three lives, the third one short (created and ended with nothing recorded, or one error)
+    for a in &scripts {
+        for b in &scripts {
+            for c in [(0usize, End::Drop), (1, End::Drop), (0, End::Finish)] {
+                if a.0 + b.0 > 2 {
+                    continue;
+                }
+                for order in interleavings(&[a.0 + 2, b.0 + 2, c.0 + 2]) {
+                    run(&[*a, *b, c], &order, t);
+                }
+            }
+        }
+    }
 }
 
 fn dfs(hist: Vec<Op>, max: usize, skip_upto: usize, t: &mut Tally) {
